@@ -3,10 +3,14 @@
   Refinement of the storage-level hash (`Z.HashInv` over the sorted reference store) to the plain redis
   hash `key → field → value` (`Z.HashRef`): HGET reads the abstraction, HSET / HDEL answer what redis
   answers and commute with the abstraction; the size meta never shows through. Codec abstracted by the
-  facts C12 proves. Other types and commands: differential / oracle only (see evidence).
+  facts C12 proves. HINCRBY (`Z.HashIncr`, mirrors rockredis HIncrBy): under the size invariant it is the
+  specification's "field := old + delta, reply the new value, nothing else touched" up to the one stated
+  deviation (int64 wrap-around, witness `C08_dev_hincrby_wraps`). Other types: Props/C08KV, C08Set, C08List, C08ZSet.
 -/
 import ZanVerif.Data.HashRef
 import ZanVerif.Data.HashReal
+import ZanVerif.Data.HashToy
+import ZanVerif.Gen.HIncrShape
 
 namespace Z.Props.C08
 
@@ -54,5 +58,115 @@ theorem C08_real_codec_facts (table k k' f f' x : List UInt8) (hk : k.length < 6
       ∃ g, x = (Z.HashExec.realFns table).fieldK k g) :=
   ⟨Z.HashReal.field_inj table k f k' f' hk hk', Z.HashReal.meta_inj table k k',
    Z.HashReal.meta_ne_field table k k' f, Z.HashReal.range_iff table k x⟩
+
+end Z.Props.C08
+
+/-! ### HINCRBY -/
+
+namespace Z.Props.C08
+open Z.HashIncr
+
+/-- **HINCRBY refines the reference map.**  Under the size invariant (C09) and when the exact sum fits int64: the reply
+    and the abstraction after the command are the specification's — a missing field counts as 0, the field becomes the
+    decimal text of old + delta and that number is the reply, every other field and key is untouched (`specSet`), and a
+    field whose value is not an integer text answers the error and changes nothing. -/
+theorem C08_abs_hincrby (E : Z.HashInv.Enc) {m : List Z.Ref.KV} (inv : Z.HashInv.Inv E m) (k f : Z.Ref.Bytes) (d : Int)
+    (hw : NoWrap (Z.HashRef.abs E m) k f d) :
+    (Z.HashRef.abs E (hincrby E m k f d).1, (hincrby E m k f d).2) = specIncr (Z.HashRef.abs E m) k f d :=
+  abs_hincrby E inv k f d hw
+
+/-- every other (key, field) is left alone — unconditionally (wrap-around or error included) -/
+theorem C08_hincrby_frame (E : Z.HashInv.Enc) {m : List Z.Ref.KV} (hs : Z.Ref.Sorted m) (k f : Z.Ref.Bytes) (d : Int)
+    (k' f' : Z.Ref.Bytes) (hne : ¬ (k' = k ∧ f' = f)) :
+    Z.HashRef.abs E (hincrby E m k f d).1 k' f' = Z.HashRef.abs E m k' f' := hincrby_frame E hs k f d k' f' hne
+
+/-- the command as the apply handler runs it on the raw increment argument: an increment text that
+    strconv.ParseInt(·, 10, 64) accepts runs HINCRBY with that number; any other answers notint / numrange and leaves the
+    store as it was -/
+theorem C08_hincrby_cmd (E : Z.HashInv.Enc) (m : List Z.Ref.KV) (k f dtxt : Z.Ref.Bytes) :
+    (∀ d, Z.KVExec.parseInt dtxt = .ok d → hincrbyCmd E m k f dtxt = hincrby E m k f d) ∧
+    (Z.KVExec.parseInt dtxt = .syntax → hincrbyCmd E m k f dtxt = (m, .err .notint)) ∧
+    (Z.KVExec.parseInt dtxt = .range → hincrbyCmd E m k f dtxt = (m, .err .numrange)) := by
+  refine ⟨fun d h => hincrbyCmd_ok E m k f dtxt d h, fun h => ?_, fun h => ?_⟩ <;>
+    (unfold hincrbyCmd cmdWith; rw [h])
+
+/-- the executable HINCRBY that the `datacore` correspondence runs is, for every codec satisfying the abstract facts,
+    literally the function the theorems above talk about -/
+theorem C08_exec_hincrby_is_model (E : Z.HashInv.Enc) :
+    Z.HashExec.hincrby (Z.HashExec.ofEnc E) = hincrby E ∧ Z.HashExec.hincrbyCmd (Z.HashExec.ofEnc E) = hincrbyCmd E :=
+  ⟨rfl, rfl⟩
+
+/-- the model's `parseInt` is `strconv.ParseInt(·, 10, 64)`: base and bit size REGENERATED from `StrInt64`
+    (rockredis/util.go) and `localHIncrbyCommand` (node/hash.go); HINCRBY writes with checkNX = false; the sum is the
+    plain int64 `n += delta` between the parse block and the one `hSetField` call (Gen/HIncrShape) -/
+theorem C08_hincrby_pinned :
+    Gen.cStrInt64Base = 10 ∧ Gen.cStrInt64Bits = 64 ∧ Gen.cHIncrDeltaBase = 10 ∧ Gen.cHIncrDeltaBits = 64 ∧
+    Gen.hincrCheckNX = false ∧ Gen.hincrParseBeforeWrite = true ∧ Gen.hincrAddWraps = true ∧
+    Gen.hincrDeltaParsedFirst = true := by
+  decide
+
+def wT : List UInt8 := [116]      -- "t"
+def wK : List UInt8 := [104]      -- "h"
+def wF : List UInt8 := [102]      -- "f"
+/-- HSET h f 9223372036854775807 on the empty store, with the REAL key codec -/
+def wMax : List Z.Ref.KV := Z.HashExec.hset (Z.HashExec.realFns wT) [] wK wF (Z.KVExec.fmtInt 9223372036854775807)
+
+/-- DEVIATION (stated, not claimed as redis behaviour): HINCRBY wraps around int64 silently — max + 1 answers min and
+    stores "-9223372036854775808" (redis: "increment or decrement would overflow", nothing changed); the specification
+    with exact integers says 2^63.  Same as the KV type's INCRBY (`C08_dev_incr_wraps`). -/
+theorem C08_dev_hincrby_wraps :
+    (Z.HashExec.hincrby (Z.HashExec.realFns wT) wMax wK wF 1).2 = .int (-9223372036854775808) ∧
+    Z.HashExec.hget (Z.HashExec.realFns wT) (Z.HashExec.hincrby (Z.HashExec.realFns wT) wMax wK wF 1).1 wK wF =
+      some (Z.KVExec.fmtInt (-9223372036854775808)) ∧
+    (specIncr (fun k f => Z.HashExec.hget (Z.HashExec.realFns wT) wMax k f) wK wF 1).2 = .int 9223372036854775808 := by
+  decide
+
+/-- the integer syntax is Go's, not redis's: "+5", "-0", "007" are integers for HINCRBY (redis: "hash value is not an
+    integer"); " 5", "5 ", "0x10", "", "1.5" are not; 2^63 is out of range -/
+theorem C08_hincrby_integer_syntax :
+    Z.KVExec.parseInt [43, 53] = .ok 5 ∧ Z.KVExec.parseInt [45, 48] = .ok 0 ∧ Z.KVExec.parseInt [48, 48, 55] = .ok 7 ∧
+    Z.KVExec.parseInt [32, 53] = .syntax ∧ Z.KVExec.parseInt [53, 32] = .syntax ∧ Z.KVExec.parseInt [48, 120, 49, 48] = .syntax ∧
+    Z.KVExec.parseInt [] = .syntax ∧ Z.KVExec.parseInt [49, 46, 53] = .syntax ∧
+    Z.KVExec.parseInt (Z.KVExec.fmtInt 9223372036854775808) = .range ∧
+    Z.KVExec.parseInt (Z.KVExec.fmtInt (-9223372036854775808)) = .ok (-9223372036854775808) := by decide
+
+/-- the size invariant in `C08_abs_hincrby` is needed — as long as HIncrBy asks `hGetRawFieldValue` to check
+    `IsNotExistOrExpired` (regenerated `Gen.hincrCheckExpired`): it then treats a hash WITHOUT size meta as empty, so on a
+    store that holds the field `f = "5"` but no size meta (not reachable: C09) it answers 1 where the specification
+    answers 6 -/
+theorem C08_hincrby_needs_invariant : Gen.hincrCheckExpired = true →
+    (hincrby Z.HashToy.toyEnc [(Z.HashToy.toyEnc.fieldK wK wF, [53])] wK wF 1).2 = .int 1 ∧
+    (specIncr (Z.HashRef.abs Z.HashToy.toyEnc [(Z.HashToy.toyEnc.fieldK wK wF, [53])]) wK wF 1).2 = .int 6 := by decide
+
+/-! non-vacuity: a codec satisfying the abstract facts exists (`Z.HashToy.toyEnc`), and the hypotheses of
+    `C08_abs_hincrby` hold on concrete reachable stores -/
+
+/-- HINCRBY h f 5 on the empty store: reply 5, field "5" -/
+example : (Z.HashRef.abs Z.HashToy.toyEnc (hincrby Z.HashToy.toyEnc [] wK wF 5).1 wK wF, (hincrby Z.HashToy.toyEnc [] wK wF 5).2) =
+    (some [53], .int 5) := by
+  have h := C08_abs_hincrby Z.HashToy.toyEnc (inv_empty Z.HashToy.toyEnc) wK wF 5 (by
+    show inI64 5
+    unfold inI64; omega)
+  have e1 := congrArg (fun p => (p.1 wK wF, p.2)) h
+  simp only at e1
+  rw [e1]
+  decide
+
+/-- … and once more on the store that holds h = {f: "5"} (invariant by `C09_inv_hincrby`): reply 12, field "12" -/
+example : (hincrby Z.HashToy.toyEnc (hincrby Z.HashToy.toyEnc [] wK wF 5).1 wK wF 7).2 = .int 12 := by
+  have inv1 := inv_hincrby Z.HashToy.toyEnc (inv_empty Z.HashToy.toyEnc) wK wF 5
+  have hcur : Z.HashRef.abs Z.HashToy.toyEnc (hincrby Z.HashToy.toyEnc [] wK wF 5).1 wK wF = some [53] := by decide
+  have h := C08_abs_hincrby Z.HashToy.toyEnc inv1 wK wF 7 (by
+    unfold NoWrap
+    rw [hcur]
+    intro n hn
+    have h5 : Z.KVExec.parseInt [53] = .ok 5 := by decide
+    rw [h5] at hn
+    cases hn
+    unfold inI64; omega)
+  have e1 := congrArg Prod.snd h
+  simp only at e1
+  rw [e1]
+  decide
 
 end Z.Props.C08
